@@ -21,11 +21,15 @@ def main():
         return 2
     gtirb, root, fds = build.build_and_activate()
     if a.replay:
+        from . import protomsg, universe
+        universe.SCHEMA = protomsg.Schema(fds)
         return props.replay_file(gtirb, a.prop, a.replay)
     ctx = core.Ctx(a.prop, a.tier, a.seed)
     ctx.gtirb = gtirb
     ctx.fds = fds
     ctx.pkg_root = root
+    from . import protomsg, universe
+    universe.SCHEMA = protomsg.Schema(fds)
     ctx.notes["gtirb_built_from"] = build.REPO
     ctx.notes["protobuf_backend"] = build.backend()
     level, rule = props.PLANS[a.prop](ctx)
